@@ -188,7 +188,13 @@ func (w *Walker) walkValue(value *ast.Value) {
 				if fieldDef != nil {
 					child.Value.ExpectedType = fieldDef.Type
 					child.Value.Definition = w.Schema.Types[fieldDef.Type.Name()]
+				} else {
+					child.Value.ExpectedType = nil
+					child.Value.Definition = nil
 				}
+			} else {
+				child.Value.ExpectedType = nil
+				child.Value.Definition = nil
 			}
 			w.walkValue(child.Value)
 		}
@@ -199,6 +205,9 @@ func (w *Walker) walkValue(value *ast.Value) {
 			if value.ExpectedType != nil && value.ExpectedType.Elem != nil {
 				child.Value.ExpectedType = value.ExpectedType.Elem
 				child.Value.Definition = value.Definition
+			} else {
+				child.Value.ExpectedType = nil
+				child.Value.Definition = nil
 			}
 
 			w.walkValue(child.Value)
@@ -214,6 +223,9 @@ func (w *Walker) walkArgument(argDef *ast.ArgumentDefinition, arg *ast.Argument)
 	if argDef != nil {
 		arg.Value.ExpectedType = argDef.Type
 		arg.Value.Definition = w.Schema.Types[argDef.Type.Name()]
+	} else {
+		arg.Value.ExpectedType = nil
+		arg.Value.Definition = nil
 	}
 
 	w.walkValue(arg.Value)
